@@ -1,7 +1,7 @@
 SPECIFICATION Spec
 CONSTANTS
   Policy = "LRU"
-  Bases = {1000, 2000, 3000}
+  Bases = {1000, 2000, 3000, 4000, 5000, 6000, 7000, 8000, 9000}
   Ids = {1, 2, 3, 4, 5, 6, 7, 8}
 INVARIANTS LenLeCap UniqueKeys
 CONSTRAINT HWM
